@@ -26,13 +26,30 @@ class _Proto:
         self._reading_paused = False
 
 
-def _impl(chunks, max_size, decode_text, bound_check=True):
+class _InflateStub:
+    """contract stub for ZLibDecompressor (zlib is FFI): returns at most max_length
+    opaque ASCII bytes"""
+
+    def __init__(self, **kw):
+        self.calls = []
+
+    def decompress_sync(self, data, max_length=0):
+        self.calls.append((len(data), max_length))
+        n = len(data)
+        if max_length and n > max_length:
+            n = max_length
+        return b"z" * n
+
+
+def _impl(chunks, max_size, decode_text, compress=False):
+    from aiohttp._websocket import reader_py
     from aiohttp._websocket.reader_py import WebSocketDataQueue, WebSocketReader
     from aiohttp._websocket.models import WebSocketError
 
+    reader_py.ZLibDecompressor = _InflateStub
     proto = _Proto()
     q = WebSocketDataQueue(proto, 2 ** 16, loop=None)
-    r = WebSocketReader(q, max_size, False, decode_text)
+    r = WebSocketReader(q, max_size, compress, decode_text)
     retained_max = 0
     first_err_at = None
     delivered_at_err = None
@@ -67,12 +84,22 @@ def _agree(impl, ref):
     (rmsgs, rcodes, early, _b, _rule) = ref
     if not nothing_after:
         return False
+    if len(msgs) < len(rmsgs) and code == 1009 and isinstance(rmsgs[len(msgs)][1], str) \
+            and rmsgs[len(msgs)][1] == "<compressed>":
+        # the inflated size of a compressed message is up to the (stubbed) inflater:
+        # refusing it as too big once complete is within the contract
+        rmsgs = rmsgs[:len(msgs)]
+        rcodes = (1009,)
     if len(msgs) != len(rmsgs):
         return False
     parts = []
+    had_compressed = False
     for a, b in zip(msgs, rmsgs):
         if a[0] != b[0]:
             return False
+        if isinstance(b[1], str) and b[1] == "<compressed>":
+            had_compressed = True
+            continue
         parts.append(H.feq(a[1], b[1]))
         parts.append(H.feq(a[2], b[2]))
     if rcodes is None:
@@ -120,20 +147,20 @@ def _key(ctx, whole, split, ref, ok_whole, same, bound):
     return None
 
 
-def _check(ctx, data, ncuts, max_lo, max_hi, fixed_text=None, extra=None):
+def _check(ctx, data, ncuts, max_lo, max_hi, fixed_text=None, extra=None, compress=False):
     from refs import ref_ws
 
     N = len(data)
     decode_text = ctx.flag("decode_text") if fixed_text is None else fixed_text
     max_size = ctx.int("max_msg_size", max_lo, max_hi) if max_hi > max_lo else max_lo
     cuts = H.cut_points(ctx, "cut", N, ncuts)
-    whole = _impl([data], max_size, decode_text)
-    split = _impl(H.pieces(data, cuts), max_size, decode_text) if ncuts else whole
+    whole = _impl([data], max_size, decode_text, compress)
+    split = _impl(H.pieces(data, cuts), max_size, decode_text, compress) if ncuts else whole
     # equality with the limit is left open by the property: try both readings
-    ref = ref_ws.decode(data, max_size, decode_text, True)
+    ref = ref_ws.decode(data, max_size, decode_text, True, compress)
     ok_whole = _agree(whole, ref)
     if ref[3]:
-        ref2 = ref_ws.decode(data, max_size, decode_text, False)
+        ref2 = ref_ws.decode(data, max_size, decode_text, False, compress)
         ok2 = _agree(whole, ref2)
         if ok_whole is False and ok2 is not False:
             ref = ref2
@@ -161,11 +188,11 @@ def _check(ctx, data, ncuts, max_lo, max_hi, fixed_text=None, extra=None):
     return prop, tag, info
 
 
-def stream(ctx, n=3, ncuts=1, max_lo=0, max_hi=0, domain=None, fixed_text=None):
+def stream(ctx, n=3, ncuts=1, max_lo=0, max_hi=0, domain=None, fixed_text=None, compress=False):
     """fully symbolic stream of n bytes; ncuts symbolic cuts; decode_text and
     max_msg_size symbolic"""
     data = ctx.bytes("d", n, domain)
-    return _check(ctx, data, ncuts, max_lo, max_hi, fixed_text)
+    return _check(ctx, data, ncuts, max_lo, max_hi, fixed_text, compress=compress)
 
 
 def twin_stream(ctx, **kw):
@@ -204,9 +231,17 @@ TEMPLATES = {
     "ping-pong": _frame(9, b"12") + _frame(10, b"") + _frame(1, b""),
     "empty-first-frag": _frame(1, b"", fin=False) + _frame(1, b"x") + _frame(0, b"y"),
 }
+# RSV1 (0x40) set on the first frame: per-message deflate negotiated (compress=True)
+COMPRESSED_TEMPLATES = {
+    "z-text": bytes([0xC1, 3]) + b"abc",
+    "z-frag": bytes([0x42, 2]) + b"ab" + bytes([0x00, 2]) + b"cd" + bytes([0x80, 1]) + b"e",
+    "z-frag-ping": bytes([0x41, 2]) + b"ab" + _frame(9, b"p") + bytes([0x80, 2]) + b"cd",
+    "z-len126": bytes([0xC2, 126, 0, 3]) + b"abc",
+}
+TEMPLATES.update(COMPRESSED_TEMPLATES)
 
 
-def template(ctx, name="text", pos=0, h=1, mode="replace", ncuts=1, max_lo=0, max_hi=0):
+def template(ctx, name="text", pos=0, h=1, mode="replace", ncuts=1, max_lo=0, max_hi=0, compress=False):
     """concrete valid frame sequence with an h-byte symbolic window at `pos`"""
     t = TEMPLATES[name]
     hole = ctx.bytes("h", h)
@@ -214,7 +249,7 @@ def template(ctx, name="text", pos=0, h=1, mode="replace", ncuts=1, max_lo=0, ma
         data = t[:pos] + hole + t[pos + h:]
     else:
         data = t[:pos] + hole + t[pos:]
-    return _check(ctx, data, ncuts, max_lo, max_hi, None, {"template": name, "pos": pos})
+    return _check(ctx, data, ncuts, max_lo, max_hi, None, {"template": name, "pos": pos}, compress=compress)
 
 
 def setup_models():
@@ -237,7 +272,10 @@ def jobs(tier):
             for pos in range(0, len(t) - h + 1):
                 out.append(dict(name=f"tmpl-{name}-p{pos}-h{h}", func="template",
                                 params=dict(name=name, pos=pos, h=h, ncuts=1, max_lo=0,
-                                            max_hi=4 if tier == "quick" else 6), limits=lim))
+                                            max_hi=4 if tier == "quick" else 6,
+                                            compress=name in COMPRESSED_TEMPLATES), limits=lim))
+    out.append(dict(name="stream-z-n3", func="stream", params=dict(n=3, ncuts=1, max_lo=0, max_hi=3, compress=True),
+                    limits=lim))
     return out
 
 
